@@ -2,7 +2,7 @@
 
 Fault enumeration: for every scenario world x dedupe operation, the sequence of mutating calls
 of the fault-free run is recorded (serial mode); then for every position k: crash-before,
-crash-after, and errno in {EIO, ENOSPC, EXDEV, EPERM, EOPNOTSUPP} at k; and pairs (k, k') where
+crash-after, and errno in {EIO, ENOSPC, EXDEV, EPERM, EOPNOTSUPP, EINTR} at k; and pairs (k, k') where
 k' is one of the next mutating calls issued after the failure of k (roll-back / continuation).
 """
 import os
@@ -14,7 +14,7 @@ from ..world import World, inventory, read_through, contents_of, inv_brief
 
 ID = "C05"
 LEVEL = "fault_enumeration"
-ERRNOS = ["EIO", "ENOSPC", "EXDEV", "EPERM", "EOPNOTSUPP"]
+ERRNOS = ["EIO", "ENOSPC", "EXDEV", "EPERM", "EOPNOTSUPP", "EINTR"]
 BUDGET = {"quick": {"wall_s": 420}, "thorough": {"wall_s": 3000}}
 EXHAUSTIVE = {"quick": True, "thorough": True}
 RULE = ("scenario worlds x {remove, link, link --soft, dedupe, move} x every position k of the recorded "
